@@ -89,6 +89,7 @@ def compare(impl_path, model_path, tol=1e-9, tol_solve=1e-7, skip_labels=(), con
         # property residuals computed on the model side:  c <seq> <label> <residual> <scale>
         for key, toks in M.items():
             if key == "_done" or key[0] != "c": continue
+            if key[2].split("#")[0] in oracle_skip: continue
             rep["residual_lines"] += 1
             r = tonum(toks[0]) if toks else None; sc = tonum(toks[1]) if len(toks) > 1 else 0.0
             t = tol_solve
@@ -123,7 +124,7 @@ def compare(impl_path, model_path, tol=1e-9, tol_solve=1e-7, skip_labels=(), con
                     kb0 = ("o", str(b), k0[2])
                     if kb0 not in I:
                         rep["oracle_mismatch"].append({"case": c, "seq": int(b), "label": "same:" + k0[2], "why": "observable of call %d missing at call %d" % (a, b)}); continue
-                    d = cmp_tokens(I[k0], I[kb0], twin_tol if twin_tol is not None else tol)
+                    d = None if I[k0] == I[kb0] else cmp_tokens(I[k0], I[kb0], twin_tol if twin_tol is not None else tol)
                     if d: rep["oracle_mismatch"].append({"case": c, "seq": int(b), "label": "same:" + k0[2], "why": "results of call %d and call %d differ: %s" % (a, b, d)})
                 continue
             ka = ("o", str(a), lab); kb = ("o", str(b), lab)
